@@ -878,6 +878,13 @@ CHECKS['C03']['note'] = CHECKS['C03']['note'] + (
 CHECKS['C10']['note'] = CHECKS['C10']['note'] + (
     ' Statelessness is tested per instance and across instances of one factory or class, against operators built by a new factory call.')
 
+CHECKS['C01']['text'] = CHECKS['C01']['text'].replace('24 theorems.', '25 theorems.').replace(
+    'Integer dtypes are claimed with integer scalars',
+    'small_correct: the small-size branch is an extracted program of direct NumPy expressions too (Gen progSmall), so a change of '
+    'its form is re-proved, not assumed. IEEE special values are outside the exact model: an oracle-only stream compares * and / '
+    '(incl. x / x with one object) and one-term lincombs on inf / nan / signed zeros with NumPy\'s entry-wise result (open finding '
+    'C01-F3: below 100 entries c * x, -x, x / c, assign turn inf into nan). Integer dtypes are claimed with integer scalars')
+
 NOT_YET = {}
 
 
